@@ -406,3 +406,17 @@ def chain_family():
     out.append(gram("chain-first-through-prefix", "s = n1 n2 n3 T\nn1 = m1\nm1 = A?\nn2 = m2\nm2 = m3\nm3 = B*\nn3 = C | @empty"))
     out.append(gram("chain-mutual", "s = p Q\np = q R | r\nq = p S | r\nr = t\nt = u\nu = V?"))
     return out
+
+
+def shift_family(kmax=3):
+    """shift/reduce conflicts whose shift belongs to k productions of the rule: every assignment of
+    {none, @left(1), @left(2), @right(1)} to the k productions (the documented rule needs *all* of them qualified)"""
+    import itertools
+    quals = ["", " @left(1)", " @left(2)", " @right(1)"]
+    out = []
+    for k in range(2, kmax + 1):
+        tails = ["e", "X", "Y e", "Z Z"][:k]
+        for qs in itertools.product(range(len(quals)), repeat=k):
+            alts = ["e P %s%s" % (tails[i], quals[qs[i]]) for i in range(k)] + ["N"]
+            out.append(gram("shift-%d-%s" % (k, "".join(str(q) for q in qs)), "e = " + " | ".join(alts)))
+    return out
